@@ -59,6 +59,15 @@ def build(nag, a_steps, ag_steps, masks, gets, transports, a_type="time-based", 
             "initial_events": {}, "until": until, "world": {"cache": True}, "run": {"lazy_stepping": True}}
 
 
+def is_set_value(val):
+    """values sent with set_data carry a 'set:' token (as a string, or inside an object / list)"""
+    import json
+    try:
+        return "set:" in json.dumps(val)
+    except Exception:  # noqa
+        return False
+
+
 def analyse(case, res):
     scn = case["scenario"]
     agents = [a[1] for a in scn.get("async", [])]
@@ -108,7 +117,7 @@ def analyse(case, res):
             for eid, attrs in inputs.items():
                 for attr, srcs in attrs.items():
                     for src, val in srcs.items():
-                        if isinstance(val, str) and val.startswith("set:"):
+                        if is_set_value(val):
                             got[(src, eid, attr)] = val
             want = dict(pending)
             if got != want:
@@ -180,6 +189,15 @@ def micro():
     sw = build(1, [1], [[1]], [[1]], [[0]], [1], until=4, conn_kind="weak", same_call=True)
     sw["tree"] = [sw["tree"]]
     out.append(sw)
+    # object-valued set_data, the agent steps (and writes) twice between two steps of the controller, the second
+    # object lacks a key of the first
+    ov = build(1, [2], [[1]], [[1]], [[0]], [0], until=6)
+    ov["sims"][1]["beh"]["vstyle"] = "dict"
+    out.append(ov)
+    ov2 = build(2, [3], [[1], [2]], [[1], [1]], [[0], [0]], [0, 1], until=7)
+    ov2["sims"][1]["beh"]["vstyle"] = "dict"
+    ov2["sims"][2]["beh"]["vstyle"] = "list"
+    out.append(ov2)
     # the written attribute also has an ordinary persistent source, cache off (values remembered by mosaik)
     out.append(with_producer(build(1, [1], [[1]], [[1, 0]], [[0]], [0], until=4), [2], cache=False))
     out.append(with_producer(build(2, [2], [[1], [1]], [[1], [0, 1]], [[0], [0]], [0, 1], until=5), [1], cache=True))
@@ -257,6 +275,11 @@ def shard(prop, tier, seed, shard, nshards):
         scn["run"]["lazy_stepping"] = draw(st.booleans())
         if draw(st.integers(0, 5)) == 0:
             scn["world"]["debug"] = True
+        # the values sent with set_data: strings, or JSON objects whose key sets change from call to call, or lists
+        for sm in scn["sims"][1:1 + nag]:
+            vs = draw(st.sampled_from([None, None, "dict", "list"]))
+            if vs:
+                sm["beh"]["vstyle"] = vs
         return {"scenario": scn, "schedule": draw(gen.schedules(sids=[s["sid"] for s in scn["sims"]]))}
 
     core.drive(hcase(), check_case, acc, 200 if tier == "quick" else 8000, seed * 1000 + shard)
